@@ -90,16 +90,21 @@ def args_of(kind, R0, Z0, sel):
         Ra = np.array([[R0 + 0.11, R0 - 0.2, R0 - 0.07], [R0 + 0.3, R0, R0 - 0.17]])
         Za = np.array([[Z0 - 0.05, Z0 + 0.2, Z0 + 0.13], [Z0 - 0.15, Z0, Z0 + 0.23]])
         return (Ra, Za), lambda r: r[1, 1]
-    if kind == "mla":
+    if kind.startswith("mla"):
+        # "mla" sets all four locations, "mla:centre+corners" only those named (the others stay unset)
+        want = kind.split(":")[1].split("+") if ":" in kind else ["centre", "xlow", "ylow", "corners"]
         a, b = MultiLocationArray(2, 3), MultiLocationArray(2, 3)
         rng = np.random.RandomState(7)
         for loc, shape in (("centre", (2, 3)), ("xlow", (3, 3)), ("ylow", (2, 4)), ("corners", (3, 4))):
+            if loc not in want:
+                rng.uniform(-0.2, 0.2, shape); rng.uniform(-0.2, 0.2, shape)
+                continue
             ra = R0 + rng.uniform(-0.2, 0.2, shape)
             za = Z0 + rng.uniform(-0.2, 0.2, shape)
             ra[1, 2], za[1, 2] = R0, Z0
             setattr(a, loc, ra)
             setattr(b, loc, za)
-        loc = ("centre", "xlow", "ylow", "corners")[sel % 4]
+        loc = want[sel % len(want)]
         return (a, b), lambda r: getattr(r, loc)[1, 2]
     raise ValueError(kind)
 
@@ -349,7 +354,8 @@ def run_shape(c):
     if c["a1"] == c["a2"]:
         dev = 0.0
         if rec["result"] == "mla":
-            for loc in ("centre", "xlow", "ylow", "corners"):
+            setlocs = c["a1"].split(":")[1].split("+") if ":" in c["a1"] else ["centre", "xlow", "ylow", "corners"]
+            for loc in setlocs:      # (a location the arguments do not have is not compared)
                 ra, za, rr = getattr(a1, loc), getattr(a2, loc), getattr(r, loc)
                 if rr.shape != ra.shape:
                     rec["shape_ok"] = 0
